@@ -523,6 +523,150 @@ func lStruct(n int) string {
 	return s
 }
 """, ["println(\"struct-and-slices\", lStruct(0), lStruct(5))"]),
+    ("defer-modifies-named-result", """@CF@
+func lDeferMod(n int) (r int) {
+	defer func() { r += 100 }()
+	for i := 0; i < n; i++ {
+		r += i
+	}
+	return r
+}
+""", ["println(\"defer-modifies-named-result\", lDeferMod(0), lDeferMod(4))"]),
+    ("generic-directive", """@CF@
+func lGmax[T number](xs []T) T {
+	var m T
+	for i, x := range xs {
+		if i == 0 || x > m {
+			m = x
+		}
+	}
+	return m
+}
+""", ["println(\"generic-directive\", lGmax([]int{3, 9, 2}), int(lGmax([]float64{1.5, 0.5})*10))"]),
+    ("generic-method", """type box[T any] struct{ v []T }
+
+@CF@
+func (b *box[T]) lCount(n int) int {
+	c := 0
+	for i := range b.v {
+		if i < n {
+			c++
+		}
+	}
+	return c
+}
+""", ["bx := &box[string]{v: []string{\"a\", \"b\", \"c\"}}; println(\"generic-method\", bx.lCount(2), bx.lCount(9))"]),
+    ("goroutine-channel", """@CF@
+func lGo(n int) int {
+	ch := make(chan int)
+	done := make(chan bool)
+	s := 0
+	go func() {
+		for v := range ch {
+			s += v
+		}
+		done <- true
+	}()
+	for i := 0; i < n; i++ {
+		ch <- i * 2
+	}
+	close(ch)
+	<-done
+	return s
+}
+""", ["println(\"goroutine-channel\", lGo(0), lGo(4))"]),
+    ("map-ops", """@CF@
+func lMaps(n int) (int, bool, int) {
+	m := map[int]string{}
+	for i := 0; i < n; i++ {
+		m[i] = "v"
+	}
+	delete(m, 1)
+	_, ok := m[1]
+	v, ok2 := m[2]
+	c := 0
+	if ok2 {
+		c = len(v)
+	}
+	return len(m), ok, c
+}
+""", ["m1, m2, m3 := lMaps(4); println(\"map-ops\", m1, m2, m3)"]),
+    ("type-assert", """@CF@
+func lAssert(v any) string {
+	if s, ok := v.(string); ok {
+		return "s:" + s
+	}
+	if i, ok := v.(int); ok && i > 2 {
+		return "big"
+	}
+	switch v.(type) {
+	case nil:
+		return "nil"
+	case float64, float32:
+		return "float"
+	}
+	return "other"
+}
+""", ["println(\"type-assert\", lAssert(\"a\"), lAssert(3), lAssert(1), lAssert(nil), lAssert(1.5), lAssert(int8(1)))"]),
+    ("variadic-recursion", """@CF@
+func lVariadic(xs ...int) int {
+	t := 0
+	for _, x := range xs {
+		t += x
+	}
+	if len(xs) > 2 {
+		return lVariadic(xs[1:]...) + t
+	}
+	return t
+}
+""", ["println(\"variadic-recursion\", lVariadic(), lVariadic(1, 2), lVariadic(1, 2, 3, 4))"]),
+    ("arrays-pointers", """@CF@
+func lArrays(n int) int {
+	var a [5]int
+	for i := range a {
+		a[i] = i * n
+	}
+	b := a
+	b[0] = 99
+	s := a[:3]
+	s[1] = 7
+	p := &a[4]
+	*p += 1
+	return a[0] + a[1] + a[4] + b[0] + len(s) + cap(s)
+}
+""", ["println(\"arrays-pointers\", lArrays(3))"]),
+    ("bool-carried-loop", """@CF@
+func lBoolLoop(n int) int {
+	ok := true
+	c := 0
+	for ok {
+		c++
+		ok = c < n
+	}
+	return c
+}
+""", ["println(\"bool-carried-loop\", lBoolLoop(0), lBoolLoop(3))"]),
+    ("tuple-assign-loop", """@CF@
+func lFibGcd(n, a, b int) (int, int) {
+	x, y := 0, 1
+	for i := 0; i < n; i++ {
+		x, y = y, x+y
+	}
+	for b != 0 {
+		a, b = b, a%b
+	}
+	return x, a
+}
+""", ["println(\"tuple-assign-loop\", fmt2(lFibGcd(10, 48, 18)), fmt2(lFibGcd(0, 7, 0)))"]),
+    ("numeric-conversions", """@CF@
+func lShifts(x uint8, n uint) (uint8, int32, float64) {
+	var f float64 = float64(x) / 3
+	if n > 1 {
+		f *= 2
+	}
+	return x << n >> 1, int32(x) << 20, f
+}
+""", ["s1, s2, s3 := lShifts(200, 2); println(\"numeric-conversions\", s1, s2, int(s3*1000))"]),
     ("side-effect-order", """@CF@
 func lOrder(n int) int {
 	note("start")
@@ -627,6 +771,7 @@ def f1_expected_wrong() -> str:
 
 
 F2_EXPECTED_WRONG = "10/ok 0/"
+F2B_EXPECTED_WRONG = "0 6"                   # same root cause: deferred closure updates a named result
 F15_EXPECTED_WRONG = "closed closed a3"          # ok of `case v, ok := <-ch` is never assigned
 
 
